@@ -10,6 +10,7 @@
 #include <asmjit/core/builder_p.h>
 #include <asmjit/core/compiler.h>
 #include <asmjit/core/cpuinfo.h>
+#include <asmjit/core/emitterutils_p.h>
 #include <asmjit/core/logger.h>
 #include <asmjit/core/rapass_p.h>
 #include <asmjit/core/rastack_p.h>
@@ -509,6 +510,24 @@ Error BaseCompiler::new_jump_node(Out<JumpNode*> out, InstId inst_id, InstOption
 
 Error BaseCompiler::emit_annotated_jump(InstId inst_id, const Operand_& o0, JumpAnnotation* annotation) {
   State state = _grab_state();
+
+#ifndef ASMJIT_NO_INTROSPECTION
+  // Strict validation - an annotated jump is captured like any other instruction (see `BaseBuilder::_emit()`).
+  if (Support::test(state.options, InstOptions::kReserved) && has_diagnostic_option(DiagnosticOptions::kValidateIntermediate)) {
+    const Operand_* no_ext = EmitterUtils::no_ext;
+    Operand_ op_array[Globals::kMaxOpCount];
+    EmitterUtils::op_array_from_emit_args(op_array, o0, no_ext[1], no_ext[2], no_ext);
+
+    Error err = _funcs.validate(BaseInst(inst_id, state.options, state.extra_reg), op_array, 1u, ValidationFlags::kEnableVirtRegs);
+    if (ASMJIT_UNLIKELY(err != Error::kOk)) {
+#ifndef ASMJIT_NO_LOGGING
+      return EmitterUtils::log_instruction_failed(this, err, inst_id, state.options, o0, no_ext[1], no_ext[2], no_ext);
+#else
+      return report_error(err);
+#endif
+    }
+  }
+#endif
 
   JumpNode* node;
   ASMJIT_PROPAGATE(new_jump_node(Out(node), inst_id, state.options, o0, annotation));
